@@ -144,11 +144,21 @@ def strip_state_init_let(cond):
     """`step == 0 && let Some(init) = state.init` -> (step == 0, the let)"""
     keep, let = [], None
     for c in conj_list(cond):
-        if c.get("k") == "letexpr":
+        if c.get("k") == "letexpr" and c["pat"].get("k") == "pvariant" and c["pat"]["path"].endswith("Option::Some"):
             fp = field_path(c["init"])
-            if fp and fp[2] == ["init"] and c["pat"].get("k") == "pvariant" and c["pat"]["path"].endswith("Option::Some"):
+            if fp and fp[2] == ["init"]:
                 let = c
                 continue
+            # `let init_expr = if step == 0 { state.init } else { None }; if let Some(init) = init_expr`:
+            # the let holds exactly when one of the alternatives that can be Some is selected
+            if peel(c["init"]).get("k") == "local":
+                from .. import norm as norm_
+                alts = norm_.value_alternatives(c["init"])
+                some_alts = [(cs, x) for cs, x in alts if not (peel(x).get("k") == "def" and (peel(x).get("path") or "").endswith("Option::None"))]
+                if len(some_alts) == 1 and field_path(some_alts[0][1]) and field_path(some_alts[0][1])[2] == ["init"] and all(pol for _, pol in some_alts[0][0]):
+                    let = c
+                    keep += [resolve(c_) for c_, _ in some_alts[0][0]]
+                    continue
         keep.append(c)
     return and_all(keep), let
 
@@ -227,7 +237,7 @@ def check_once_idiom(call, idiom, state_loop, ix, defs):
         return "worklist loop is not `while let Some(e) = todo.pop()`"
     todo_id = local_id(chain(lc["init"])[0])
     tinit = simple_let_init(defs, todo_id)
-    if tinit is None or [x["id"] for x in walk(tinit) if x.get("k") == "local"] != [init_b[1]]:
+    if tinit is None or [canon(x["id"]) for x in walk(tinit) if x.get("k") == "local"] != [canon(init_b[1])]:
         return "the worklist must start from the state's init expression"
     e_b = binding_of_pat(lc["pat"]["subs"][0])
     fec = [n for n in walk(loop["body"]) if n.get("k") == "mcall" and n["name"] == "for_each_child"]
